@@ -177,6 +177,8 @@ def r5(fx):
                 for boost in (True, False):
                     if micro is True and guessed >= 1 or micro is False and guessed < 1:
                         continue
+                    if err is not None and err.upper() not in iso.levels_of(guessed) and not (err == 'H' and micro):
+                        continue        # the version search never answers with a version that lacks the requested level (R6)
                     genv, rec = p04._encode_stub_env(fx, it, mv[guessed] if guessed < 1 else guessed)
                     try:
                         FuncVal(fn, genv, it)('<content>', err, None, None, None, None, False, micro, boost)
